@@ -178,7 +178,9 @@ def gen_case(rng, dt, fam="field", subset=None, malformed=False):
     if malformed:
         for name in list(attrs):
             if name != "valid_range" and not attrs[name].get("vec") and rng.random() < 0.25:
-                attrs[name] = {"t": "str", "v": rng.choice(["abc", "12", ""]) or "x"}
+                # (numeric-looking text is kept for the masking attributes only: as a packing attribute it passes
+                # float() and then fails in the arithmetic of cfdm and netCDF4-python alike)
+                attrs[name] = {"t": "str", "v": rng.choice(["abc", "12", "x"] if name in MASK_ATTRS else ["abc", "x"])}
     if "_Unsigned" in subset:
         attrs["_Unsigned"] = {"t": "str", "v": rng.choice(["true", "true", "true", "True", "false", "TRUE"])}
     # shape and data
@@ -362,7 +364,8 @@ def ref_agrees(c, o, ref, u):
         return True
     if o["shape"] != ref["shape"]:
         return False
-    if o["dtype"] != ref["dtype"] and not (u == 1 and identity_pack(c)):
+    scalar_missing = o["shape"] == [] and o["flat"] == [None]     # the masked constant has no type of its own
+    if o["dtype"] != ref["dtype"] and not (u == 1 and identity_pack(c)) and not scalar_missing:
         return False           # identity packing: the unpacked type is the attribute's type (CF 8.1)
     cmp_values = o["dtype"] == ref["dtype"]
     dv = u == 1 and default_fill_under_view(c)
@@ -463,7 +466,7 @@ def g_obs(o):
     vals = []
     for v in o["flat"]:
         if v is None:
-            vals.append("None")
+            vals.append("(@None onum)")
         elif v == "nan":
             vals.append("(Some ONaN)")
         elif modelable_value(v):
@@ -553,6 +556,8 @@ def judge(chk, model_ok, cases, rows, crashed):
             if w is None:
                 continue
             if "err" in w:
+                if str_attr(c) and "err" in (r.get("ref") or {"err": 1}) and u:
+                    continue      # text-valued attribute that the reference library cannot read either
                 if (c["i"], key, "read") not in explained:
                     sig = "read-raises"
                     if vector_pack(c):
